@@ -36,11 +36,12 @@ TRUSTED = [
     "C07: the contracts K1-K7 are hypotheses of the Lean theorem; they are tied to the code only by being monitored on every simulated trace",
 ]
 ASSUMPTIONS = [
-    "link: every datagram reaches every host that is up within 100 ms at least once, except one chosen delivery (K7)",
+    "link: every datagram reaches every host that is up within 100 ms at least once, except the deliveries of one chosen datagram (K7)",
     "API discipline: services have unique names and one owner; update/unregister are issued on registered services; a host is closed "
     "no earlier than 400 ms after its last register/update call (after the call returned) and 300 ms after its last unregister (an application "
     "awaiting the broadcast task that unregister returns); API calls on one service are at least 1 ms apart",
-    "observation horizon below the 1125 s PTR TTL floor (no expiry-driven Removed)",
+    "single loss = ONE datagram (any subset of its deliveries, up to all of them); observation horizons up to 2.5 virtual hours with "
+    "PTR TTLs of 120-9000 s (expiry and refresh are in scope: K3b, KF)",
 ]
 
 TYPES = ["_a._tcp.local.", "_b._tcp.local.", "_c._udp.local."]
@@ -111,7 +112,7 @@ def gen_late_browser_family(rng):
     svcs = [{"owner": 0, "ty": 0} for _ in range(nsvc)]
     ops = [[rng.choice([0, 1, rng.randint(0, 2000)]), "register", i] for i in range(nsvc)]
     if rng.random() < 0.3:
-        ops.append([rng.randint(3000, 20000), "update", 0])
+        ops.append([rng.randint(3000, 20000), "update", 0] + ([{"other_ttl": rng.choice(PTR_TTLS)}] if rng.random() < 0.5 else []))
     m = rng.choice([1, 5, 10, 30, 37, 38, 40, 45, 50, 56, 57, 60, 65, 70, 74, 75, 76, 80]) * minute + rng.choice([0, 1, rng.randint(0, minute)])
     ops.append([m, "browse", 1, 0])
     if nh >= 3:
@@ -167,6 +168,8 @@ def gen_mixed_ttl_family(rng):
         t += rng.choice([1000, 5000, 16000, 29000, 60000, rng.randint(400, 120000)])
     if rng.random() < 0.25:
         ops.append([t + rng.randint(0, 600000), "update", rng.randrange(nsvc)])
+    if rng.random() < 0.4:  # an update that changes the PTR TTL (shorter -> longer and longer -> shorter)
+        ops.append([t + rng.choice([2000, 30000, rng.randint(0, 900000)]), "update", rng.randrange(nsvc), {"other_ttl": rng.choice(PTR_TTLS)}])
     ops.sort(key=lambda o: (o[0], o[1]))
     return {"simseed": rng.randrange(1 << 30), "hosts": [{"up": 0} for _ in range(nh)], "types": 1, "svcs": svcs, "ops": ops,
             "horizon": rng.choice([5400000, 7500000, 9000000]), "every": rng.choice([120000, 240000, 300000]), "family": "mixed-ttl-long",
@@ -174,7 +177,30 @@ def gen_mixed_ttl_family(rng):
                     "dups": rng.choice(["none", "none", "some"])}}
 
 
+def gen_unreg_close_family(rng):
+    """review F2: the schedule the API discipline used to exclude -- a host unregisters its (only) service and is closed before the
+    unregister's second / third goodbye is due (what the synchronous `unregister_service(info); close()` of the library's own
+    example does): `_close` sets `done`, the remaining goodbyes are silently dropped"""
+    nh = rng.choice([2, 3])
+    nsvc = rng.choice([1, 1, 2])  # with a second service still registered the close takes 250 ms and the goodbyes usually get out
+    svcs = [{"owner": 0, "ty": 0} for _ in range(nsvc)]
+    ops = [[rng.choice([0, rng.randint(0, 300)]), "browse", 1, 0]]
+    if nh == 3:
+        ops.append([rng.randint(0, 2500), "browse", 2, 0])
+    for i in range(nsvc):
+        ops.append([rng.randint(300, 1200), "register", i])
+    tu = rng.randint(2600, 5000)
+    ops.append([tu, "unregister", 0])
+    ops.append([tu + rng.choice([1, 2, 50, 124, 125, 126, 200, 249, 250, 251]), "close", 0])
+    ops.sort(key=lambda o: (o[0], o[1]))
+    return {"simseed": rng.randrange(1 << 30), "hosts": [{"up": 0} for _ in range(nh)], "types": 1, "svcs": svcs, "ops": ops,
+            "family": "unregister-then-close",
+            "net": {"seed": rng.randrange(1 << 30), "mode": rng.choice(["uniform", "extreme", "mixed"]), "drop": None, "dups": "none"}}
+
+
 def gen_case(rng, idx=0, long_p=0.05):
+    if idx == 6 or (idx > 6 and rng.random() < 0.02):
+        return gen_unreg_close_family(rng)
     # the first scenarios of every run are long-horizon ones (cycling through the families), then each with probability long_p
     if idx < 6:
         c = [gen_flap_family, gen_late_browser_family, gen_mixed_ttl_family][idx % 3](rng)
@@ -206,6 +232,8 @@ def gen_case(rng, idx=0, long_p=0.05):
         owner = rng.randrange(nh)
         ty = rng.randrange(ntypes)
         svcs.append({"owner": owner, "ty": ty})
+        if rng.random() < 0.25:
+            svcs[-1]["ip"] = rng.choice(["v6", "v6", "dual"])  # IPv6-only / dual-stack services
         t = hosts[owner]["up"] + rng.choice([0, 1, rng.randint(0, 400), rng.randint(0, 4000), rng.randint(0, 8000)])
         ops.append([t, "register", s])
         last_reg_on_host[owner] = max(last_reg_on_host.get(owner, 0), t)
@@ -329,6 +357,12 @@ def svc_name(i, ty):
     return "s%d.%s" % (i, TYPES[ty])
 
 
+def all_addresses(info):
+    from zeroconf import IPVersion
+
+    return info.addresses_by_version(IPVersion.All)
+
+
 def run_case(case):
     """run one scenario on the real code; returns the observation dict"""
     from zeroconf import ServiceInfo, ServiceListener
@@ -336,7 +370,7 @@ def run_case(case):
 
     sim = vsim.Sim(case["simseed"], maxdelay=100)
     plan = Plan(case["net"])
-    svcs = case["svcs"]
+    svcs = [dict(sv) for sv in case["svcs"]]  # (an `update` op may change a service's TTLs)
     names = {svc_name(i, s["ty"]).lower(): i for i, s in enumerate(svcs)}
     SVC_TY.clear()
     SVC_TY.update({i: s["ty"] for i, s in enumerate(svcs)})
@@ -356,6 +390,9 @@ def run_case(case):
     skipped = []
     api_times = []
     drop = case["net"].get("drop")
+    drop_dgram = None
+    if isinstance(drop, dict):  # {"dgram": send index, "mode": "all" | "remote"}
+        drop_dgram, drop = drop, None
 
     def now():
         return sim.now()
@@ -387,6 +424,11 @@ def run_case(case):
                 net.targets.append([i, d, h.idx, t])
                 if i == drop:
                     net.dropped = [d, h.idx]
+                    continue
+                if drop_dgram is not None and drop_dgram["dgram"] == d and (drop_dgram.get("mode", "all") == "all" or h is not src):
+                    # the datagram itself is lost: for every receiver ("all": at the sender, loop-back included) or for every
+                    # other host ("remote": on the wire, the sender still hears itself)
+                    net.dropped = ["dgram", d, drop_dgram.get("mode", "all")]
                     continue
                 sim.loop.call_later(plan.delay(i) / 1000.0, deliver, h, d, src, mc, data, items)
                 if plan.dup(i):
@@ -434,7 +476,7 @@ def run_case(case):
         except Exception as ex:  # a closed instance raises; judged by the oracle only when the host stayed up
             ok = "exc:" + type(ex).__name__
         lookups.append({"b": b, "s": s, "t0": t0, "t1": now(), "ok": ok, "port": info.port, "server": info.server,
-                        "txt": (info.text or b"").hex(), "addrs": sorted(a.hex() for a in info.addresses)})
+                        "txt": (info.text or b"").hex(), "addrs": sorted(a.hex() for a in all_addresses(info))})
 
     def make_info(i, ver):
         s = svcs[i]
@@ -445,12 +487,17 @@ def run_case(case):
             kw["other_ttl"] = s["other_ttl"]  # TTL of the PTR (and TXT) record
         if s.get("host_ttl") is not None:
             kw["host_ttl"] = s["host_ttl"]  # TTL of SRV / address records
-        return ServiceInfo(ty, svc_name(i, s["ty"]), 8000 + 10 * i + ver, addresses=[socket.inet_aton(h.ip)],
+        addrs = [socket.inet_aton(h.ip)]
+        if s.get("ip") == "v6":
+            addrs = [socket.inet_pton(socket.AF_INET6, "2001:db8::%x" % (s["owner"] + 1))]
+        elif s.get("ip") == "dual":
+            addrs.append(socket.inet_pton(socket.AF_INET6, "2001:db8::%x" % (s["owner"] + 1)))
+        return ServiceInfo(ty, svc_name(i, s["ty"]), 8000 + 10 * i + ver, addresses=addrs,
                            server="h%d.local." % s["owner"], properties={"k": "v%d" % ver, "i": str(i)}, **kw)
 
     def advertise(i, info):
         versions[i].append({"t": now(), "port": info.port, "server": info.server, "txt": info.text.hex(),
-                            "addrs": sorted(a.hex() for a in info.addresses)})
+                            "addrs": sorted(a.hex() for a in all_addresses(info))})
 
     async def host_up(i):
         await sim.sleep_until(case["hosts"][i]["up"])
@@ -527,6 +574,8 @@ def run_case(case):
             if sstate[i] != "registered":
                 skipped.append(op)
                 return
+            if len(op) > 3 and isinstance(op[3], dict):  # update with new TTLs: [t, "update", i, {"other_ttl": ..}]
+                svcs[i].update(op[3])
             info = make_info(i, len(versions[i]))
             trace.append([now(), "upd", i])
             api_times.append(now())
@@ -552,7 +601,7 @@ def run_case(case):
         last = max(api_times) if api_times else 0
         out["lastChange"] = last
         # observations: once WAIT_MS after the last change, then (long-horizon cases) every `every` ms until `horizon`
-        obs_times = [last + WAIT_MS]
+        obs_times = [last + SETTLE_MS, last + SETTLE_MS + 1, last + WAIT_MS]  # exactly at the proven bound, 1 ms later, and at 30 s
         if case.get("horizon"):
             t = last + WAIT_MS
             while t < last + case["horizon"]:
@@ -815,8 +864,8 @@ def monitors(tr, endT, cfg=CFG):
             if (dst is None or dst == h) and up_before(h, t) and not closed_by(h, t + D):
                 if not any(e[2] == d and e[4] == h and e[6] == items and t <= e[0] <= t + D for e in dlvs):
                     missing.append((d, t, h))
-    if any(a != b for a in missing for b in missing):
-        bad["K7"].append(["more-than-one-missing-delivery", missing[:4]])
+    if any((a[0], a[1]) != (b[0], b[1]) for a in missing for b in missing):  # all missing deliveries are of ONE datagram
+        bad["K7"].append(["deliveries-of-more-than-one-datagram-missing", missing[:4]])
 
     # ---- K6 / K2 safety
     def reg_since(s, x, y_excl=None, y_incl=None):
@@ -1078,8 +1127,10 @@ def oracle(case, obs):
                                   "it is still missing %d ms after the last change"
                                   % (f["b"], f["host"], miss[0], cbs[-1][0], cbs[-1][0] - obs["lastChange"], after)))
                     else:
-                        v.append(("C07:not-added", "browser %d on H%d does not report registered s%d %d ms after the last change"
-                                  % (f["b"], f["host"], miss[0], after)))
+                        cause = not_added_cause(case, obs, f["b"], miss[0])
+                        v.append(("C07:not-added" + (":" + cause if cause else ""),
+                                  "browser %d on H%d does not report registered s%d %d ms after the last change%s"
+                                  % (f["b"], f["host"], miss[0], after, " (%s)" % cause if cause else "")))
             for b in f["bad"]:
                 if ("b", f["b"], tuple(b)) not in seen:
                     seen.add(("b", f["b"], tuple(b)))
@@ -1103,13 +1154,67 @@ def oracle(case, obs):
         if bh in close_times and close_times[bh] <= lk["t1"] + 300:
             continue
         if lk["ok"] is not True:
-            v.append(("C07:lookup-from-added-failed", "lookup of s%d from the Added callback at %d returned %s" % (s, lk["t0"], lk["ok"])))
+            cause = lookup_failure_cause(case, obs, lk)
+            v.append(("C07:lookup-from-added-failed" + (":" + cause if cause else ""),
+                      "lookup of s%d from the Added callback at %d returned %s%s" % (s, lk["t0"], lk["ok"], " (%s)" % cause if cause else "")))
             continue
         vs = [x for x in obs["versions"][s] if x["t"] <= lk["t1"]]
-        if not any(x["port"] == lk["port"] and x["server"] == lk["server"] and x["txt"] == lk["txt"] and x["addrs"] == lk["addrs"] for x in vs):
+        # addresses belong to the host name: the lookup returns the service's own addresses, possibly together with addresses that
+        # other services advertised for the same host name
+        host_addrs = {ad for vv in obs["versions"] for x in vv if x["server"] == lk["server"] for ad in x["addrs"]}
+        if not any(x["port"] == lk["port"] and x["server"] == lk["server"] and x["txt"] == lk["txt"]
+                   and set(x["addrs"]) <= set(lk["addrs"]) <= host_addrs for x in vs):
             v.append(("C07:lookup-from-added-wrong", "lookup of s%d from the Added callback at %d resolved port %s server %s txt %s addrs %s, advertised %s"
                       % (s, lk["t0"], lk["port"], lk["server"], lk["txt"], lk["addrs"], vs)))
     return v
+
+
+def not_added_cause(case, obs, b, s):
+    """the browser was started after the host's cached PTR(s) had expired but before the 10 s cache cleanup purged it: the replay skips
+    the expired record, and the answer to the browser's question finds the unpurged entry (`async_get_unique`), refreshes it and is
+    reported to the browser as a refresh of a known record, never as Added"""
+    br = obs["browsers"][b]
+    last = None
+    later = False
+    for e in obs["trace"]:
+        if e[1] == "dlv" and e[4] == br["host"]:
+            for it in e[6]:
+                if it[0] == "p" and it[1] == s:
+                    if e[0] <= br["t"]:
+                        last = (it[2], e[0])
+                    elif it[2] > 0:
+                        later = True
+    if last and last[0] > 0 and later:
+        exp = last[1] + eff_ttl(last[0])
+        if exp <= br["t"] < exp + CFG["cleanup"]:
+            return "browser-started-between-expiry-and-purge"
+    return ""
+
+
+def lookup_failure_cause(case, obs, lk):
+    """D22: the lookup learnt the SRV (server, port) but no address, and during the lookup its host processed a response in
+    which an address record of that server came *before* the SRV of the service (packet order): `async_update_records` ignores
+    the address (server unknown), the SRV branch reloads addresses from the cache, which does not hold them yet, and later
+    questions list the address as a known answer"""
+    from zeroconf import DNSIncoming
+    from zeroconf._dns import DNSAddress, DNSService
+
+    if not lk.get("server") or lk.get("addrs"):
+        return ""
+    bh = obs["browsers"][lk["b"]]["host"]
+    sv = case["svcs"][lk["s"]]
+    name = svc_name(lk["s"], sv["ty"]).lower()
+    for e in obs["trace"]:
+        if e[1] == "dlv" and e[4] == bh and lk["t0"] <= e[0] <= lk["t1"]:
+            m = DNSIncoming(bytes.fromhex(obs["datagrams"][e[2]][4]))
+            if m.is_query():
+                continue
+            recs = m.answers()
+            srv = [i for i, r in enumerate(recs) if isinstance(r, DNSService) and r.name.lower() == name]
+            adr = [i for i, r in enumerate(recs) if isinstance(r, DNSAddress) and r.name.lower() == lk["server"].lower()]
+            if srv and adr and min(adr) < min(srv):
+                return "address-before-srv"
+    return ""
 
 
 def resurrection_cause(case, obs, s):
@@ -1126,6 +1231,9 @@ def resurrection_cause(case, obs, s):
         if i > pos_unreg and e[1] == "send" and any(it[0] == "p" and it[1] == s and it[2] > 0 for it in e[5]):
             late.append(e[0])
     if not late:
+        owner = case["svcs"][s]["owner"]
+        if any(e[1] == "close" and e[2] == owner and tu <= e[0] <= tu + 250 for e in tr):
+            return "goodbyes-cut-by-close"
         return "no-positive-ptr-after-unregister"
     if any(t - r in (575, 800) for t in late for r in regt) or any(t - u[0] in (225, 450) for t in late for u in tr if u[1] == "upd" and u[2] == s):
         return "D6-announcement-after-unregister"
@@ -1144,6 +1252,7 @@ def check_case(case, res, ctx, tag, lean_jobs):
     endT = obs["endT"]
     vio = oracle(case, obs)
     mon = monitors(tr, endT)
+    mon_all = mon
     conc = conclusion(tr, endT)
     brief = {"case": case, "tag": tag}
     failed0 = sorted(k for k, w in mon.items() if w)
@@ -1157,6 +1266,16 @@ def check_case(case, res, ctx, tag, lean_jobs):
         res.count("loop-errors", len(obs["errors"]))
         if len(res.notes) < 5:
             res.notes.append("loop exception handler: %s" % obs["errors"][:2])
+    # review F2 / known finding: a close less than 250 ms after an unregister drops that unregister's remaining goodbyes.  On such
+    # a run "K2: goodbye missing" is the library's behaviour, reported under its own signature, not a broken tie
+    cut = [w for w in mon["K2"] if w[0] == "goodbye-missing" and any(
+        e[1] == "close" and e[2] == w[3][0] and w[1] <= e[0] <= w[1] + 250 for e in tr)]
+    if cut:
+        res.violate("C07:goodbyes-cut-by-close",
+                    "unregister at %d ms, close of the same host %s: the goodbye due at +%d ms is never sent (async_send is a no-op once done)"
+                    % (cut[0][1], [e[0] for e in tr if e[1] == "close" and e[2] == cut[0][3][0]], cut[0][2]), brief)
+        mon = dict(mon, K2=[w for w in mon["K2"] if w not in cut])
+        res.count("goodbyes-cut-by-close")
     failed = sorted(k for k, w in mon.items() if w)
     for k in failed:
         res.count("contract-violated:" + k)
@@ -1183,7 +1302,7 @@ def check_case(case, res, ctx, tag, lean_jobs):
     if len(res.samples) < 3:
         res.sample({"tag": tag, "hosts": len(case["hosts"]), "events": len(tr), "deliveries": obs["ndeliveries"], "dropped": obs["dropped"],
                     "final": [{k: f[k] for k in ("b", "host", "ty", "live")} for f in obs["final"]], "registered": obs["registered"]})
-    lean_jobs.append((brief, tr, endT, mon, conc))
+    lean_jobs.append((brief, tr, endT, mon_all, conc))
     return obs
 
 
@@ -1227,23 +1346,33 @@ def run_inner(ctx):
     res = C.Result("C07")
     seed = ctx["seed"]
     rng = C.rng_for(seed, "c07")
+    lrng = C.rng_for(seed, "c07-lean-sample")
     tier = ctx["tier"]
     thorough = tier == "thorough"
-    n_scen = C.Budget(tier, 130, 300).n
-    n_sweep = 0 if not thorough else max(1, n_scen // 10)  # scenarios whose every delivery is dropped in turn
-    drops_per = 8 if not thorough else 24
-    lean_cap = 500 if not thorough else 4000  # the compiled Lean monitors cost ~0.03 s per trace: evaluated on a sample
+    n_scen = C.Budget(tier, 95, 200).n
+    n_sweep = 0 if not thorough else max(1, n_scen // 10)  # scenarios whose every delivery / datagram is dropped in turn
+    drops_per = 6 if not thorough else 20
+    dgram_per = 4 if not thorough else 10
+    # the theorem is about the Lean monitors: thorough runs EVERY trace through them; quick (budget) a uniform sample of the runs
+    # plus all corpus cases and every run on which a Python monitor, the conclusion or the oracle failed
+    lean_frac = 1.0 if thorough else 0.3
     if ctx.get("widened"):
         n_scen *= 3
+        lean_frac = min(lean_frac, 0.15)
     lean_jobs = []
-    all_jobs = []
+    counts = {"runs": 0, "sampled": 0, "failed": 0}
 
-    def one(case, tag, want_lean):
+    def one(case, tag, force_lean=False):
         jobs = []
+        nv = len(res.violations)
         obs = check_case(case, res, ctx, tag, jobs)
         brief, tr, endT, mon, conc = jobs[0]
-        interesting = any(mon.values()) or bool(conc)
-        if (want_lean and len(lean_jobs) < 2 * lean_cap) or (interesting and len(lean_jobs) < lean_cap + 60):
+        counts["runs"] += 1
+        interesting = any(mon.values()) or bool(conc) or len(res.violations) > nv
+        if interesting:
+            counts["failed"] += 1
+        if force_lean or (interesting and counts["failed"] <= 400) or lrng.random() < lean_frac:
+            counts["sampled"] += 1
             lean_jobs.append(jobs[0])
         return obs
 
@@ -1254,33 +1383,53 @@ def run_inner(ctx):
         res.count("corpus")
     for i in range(n_scen):
         case = gen_case(rng, i, 0.04 if not thorough else 0.12)
-        base = one(case, "gen/%d" % i, True)
+        base = one(case, "gen/%d" % i)
         res.count("family:" + case.get("family", "short"))
         n = base["ndeliveries"]
-        # every choice of one dropped delivery: swept for the first scenarios of the thorough tier, sampled otherwise and
-        # biased to deliveries of PTR-carrying datagrams (announcements / goodbyes / answers: the ones the argument rests on)
+        # "the loss of any single datagram": (1) one delivery of it (one receiver misses it) -- swept for the first scenarios of the
+        # thorough tier, sampled otherwise, biased to PTR-carrying datagrams (announcements / goodbyes / answers: the ones the
+        # argument rests on); (2) the datagram itself -- every receiver misses it ("all": loop-back included; "remote": all others)
         tg = base["targets"]
         important = [x[0] for x in tg if any(it[0] == "p" for it in _items_of(base, x[1]))]
+        sends_ptr = sorted({x[1] for x in tg if any(it[0] == "p" for it in _items_of(base, x[1]))})
+        sends_q = sorted({x[1] for x in tg if any(it[0] == "q" for it in _items_of(base, x[1]))})
+        nsend = base["nsend"]
         if i < n_sweep:
             cand = list(range(n))
+            dcand = [(d, m) for d in range(nsend) for m in ("all", "remote")]
             res.count("scenarios-with-every-single-drop-swept")
         else:
             cand = drop_choices(rng, n, drops_per)
             if important:
                 cand = sorted(set(cand) | set(rng.sample(important, min(len(important), max(2, drops_per // 2)))))
-        lean_pick = set(rng.sample(cand, min(len(cand), 4))) if len(lean_jobs) < lean_cap else set()
+            ds = set(drop_choices(rng, nsend, dgram_per // 2))
+            for pool in (sends_ptr, sends_q):
+                if pool:
+                    ds |= set(rng.sample(pool, min(len(pool), max(1, dgram_per // 4))))
+            dcand = [(d, rng.choice(["all", "all", "remote"])) for d in sorted(ds)]
         for d in cand:
             c2 = json.loads(json.dumps(case))
             c2["net"]["drop"] = d
-            one(c2, "gen/%d/drop%d" % (i, d), d in lean_pick)
+            one(c2, "gen/%d/drop%d" % (i, d))
+        for d, m in dcand:
+            c2 = json.loads(json.dumps(case))
+            c2["net"]["drop"] = {"dgram": d, "mode": m}
+            one(c2, "gen/%d/dgram%d-%s" % (i, d, m))
+            res.count("whole-datagram-drops")
     res.count("traces-evaluated-by-lean-monitors", len(lean_jobs))
+    res.notes.append("Lean monitors (zcdriver c07) evaluated on %d of %d traces (%s: %s); the Python monitors and the oracle on all %d"
+                     % (len(lean_jobs), counts["runs"], tier,
+                        "every trace" if lean_frac >= 1.0 else "uniform sample p=%.2f + all corpus cases + every run with a failed monitor/conclusion/oracle; "
+                        "the rest is skipped for the quick budget (about 0.03 s per trace)" % lean_frac, counts["runs"]))
     if ctx.get("driver_ok"):
         lean_compare(res, lean_jobs)
-    res.rule = ("random scenarios (2-5 hosts, up to 30% started late; 1-6 services of 1-3 types with register / update / unregister / re-register at "
-                "boundary-biased gaps; 1-4 browsers before/during/after; optional close) x delivery schedules (0..100 ms uniform / extremes / mixed, "
-                "duplication none/some/many) x one dropped delivery (sampled, biased to PTR-carrying datagrams; every delivery in turn for the first "
-                "tenth of the thorough scenarios); oracle and Python contract monitors on every run, compiled Lean monitors on a sample (all corpus, all "
-                "base runs, two drops per scenario, every run on which a monitor or the conclusion failed); "
+    res.rule = ("random scenarios (2-5 hosts, up to 30% started late; 1-6 services of 1-3 types, IPv4 / IPv6-only / dual, default and non-default "
+                "TTLs, with register / update / unregister / re-register at boundary-biased gaps; 1-4 browsers before/during/after; optional close; "
+                "long-horizon families up to 2.5 h) x delivery schedules (0..100 ms uniform / extremes / mixed, duplication none/some/many) x the "
+                "loss of one datagram: one of its deliveries (sampled, biased to PTR-carrying datagrams) or the whole datagram (every receiver, "
+                "with or without the sender's loop-back); both swept exhaustively for the first tenth of the thorough scenarios; every run is "
+                "observed at lastChange+16 s (the proven bound), +16.001 s, +30 s and then periodically; oracle and Python contract monitors on every "
+                "run, compiled Lean monitors on every run (thorough) or a uniform 30% sample plus corpus plus all failures (quick); "
                 "non-trivial = distinct (hosts, services, types, browsers, late host, drop, delay mode, dups, close, update, unregister, Removed seen, refused registration)")
     return res
 
